@@ -70,17 +70,18 @@ type Scenario struct {
 }
 
 const (
-	fVertex    = 1
-	fHEdge     = 2
-	fTanVert   = 4
-	fTanCurve  = 8
-	fBehind    = 16
-	fOpenEnd   = 32
-	fZeroTan   = 64
-	fOnZeroTan = 128
-	fOnCubEnd  = 256
-	fOnQuad    = 512
-	fOnOther   = 512 // Filling (sf only): the start point lies on another contour
+	fVertex      = 1
+	fHEdge       = 2
+	fTanVert     = 4
+	fTanCurve    = 8
+	fBehind      = 16
+	fOpenEnd     = 32
+	fZeroTan     = 64
+	fOnZeroTan   = 128
+	fOnCubEnd    = 256
+	fOnQuad      = 512
+	fCubEndAhead = 1024
+	fOnOther     = 512 // Filling (sf only): the start point lies on another contour
 )
 
 // embeddings. exact: lattice coincidences (and points on the boundary) stay exact in float64 and the ray keeps its
@@ -113,14 +114,16 @@ func embByName(n string) (embInfo, bool) {
 // rayClass names the degenerate position of the ray (exact predicates of the spec), most specific first.
 func rayClass(f int) string {
 	switch {
+	case f&fOpenEnd != 0:
+		return "open-end"
 	case f&fHEdge != 0:
 		return "hedge"
 	case f&fZeroTan != 0:
 		return "cubic-zero-tangent"
+	case f&fCubEndAhead != 0:
+		return "cubic-end-vertex"
 	case f&fTanVert != 0:
 		return "tangent-vertex"
-	case f&fOpenEnd != 0:
-		return "open-end"
 	case f&fVertex != 0:
 		return "vertex"
 	case f&fTanCurve != 0:
